@@ -53,6 +53,9 @@ struct Cfg {
     /// root: subcommand_precedence_over_arg + a multi-value positional that has taken one value
     /// before the first step
     precedence: bool,
+    /// root declares a second global (`hue`) before `g`, and `sa` declares `hue` again itself (same
+    /// id); `g` must be inherited all the same
+    redeclared: bool,
 }
 
 impl Cfg {
@@ -60,7 +63,7 @@ impl Cfg {
         if self.user_help { "help" } else { "sx" }
     }
     fn name(&self) -> String {
-        format!("naming={:?} global={:?}@{} ext={:?}{}", self.naming, self.gkind, self.def_level, self.ext, if self.user_help { " sibling=user-defined help" } else if self.ignored_error { " root error ignored" } else if self.precedence { " precedence over a collecting positional" } else { "" })
+        format!("naming={:?} global={:?}@{} ext={:?}{}", self.naming, self.gkind, self.def_level, self.ext, if self.user_help { " sibling=user-defined help" } else if self.ignored_error { " root error ignored" } else if self.precedence { " precedence over a collecting positional" } else if self.redeclared { " sa re-declares an earlier global" } else { "" })
     }
     fn global_arg(&self) -> ArgSpec {
         let mut g = match self.gkind {
@@ -119,6 +122,14 @@ impl Cfg {
         self.decorate(&mut sb, 'B', "sb-flag");
         self.decorate(&mut sa, 'A', "sa-flag");
         self.decorate(&mut sx, 'X', "sx-flag");
+        if self.redeclared {
+            let mut hue = ArgSpec::opt("hue", None, Some("hue"));
+            hue.global = true;
+            hue.default = vec!["auto".into()];
+            root.args.push(hue.clone());
+            hue.default = vec!["always".into()];
+            sa.args.push(hue);
+        }
         match self.def_level {
             0 => root.args.push(self.global_arg()),
             _ => sa.args.push(self.global_arg()),
@@ -490,11 +501,14 @@ fn cfgs() -> Vec<Cfg> {
         for gkind in GKINDS {
             for def_level in [0usize, 1] {
                 for ext in [None, Some(Ext::Str), Some(Ext::Os)] {
-                    v.push(Cfg { naming, gkind, def_level, ext, user_help: false, ignored_error: false, precedence: false });
+                    v.push(Cfg { naming, gkind, def_level, ext, user_help: false, ignored_error: false, precedence: false, redeclared: false });
                     if naming == Naming::Name && ext.is_none() {
-                        v.push(Cfg { naming, gkind, def_level, ext, user_help: true, ignored_error: false, precedence: false });
-                        v.push(Cfg { naming, gkind, def_level, ext, user_help: false, ignored_error: true, precedence: false });
-                        v.push(Cfg { naming, gkind, def_level, ext, user_help: false, ignored_error: false, precedence: true });
+                        v.push(Cfg { naming, gkind, def_level, ext, user_help: true, ignored_error: false, precedence: false, redeclared: false });
+                        v.push(Cfg { naming, gkind, def_level, ext, user_help: false, ignored_error: true, precedence: false, redeclared: false });
+                        v.push(Cfg { naming, gkind, def_level, ext, user_help: false, ignored_error: false, precedence: true, redeclared: false });
+                        if def_level == 0 {
+                            v.push(Cfg { naming, gkind, def_level, ext, user_help: false, ignored_error: false, precedence: false, redeclared: true });
+                        }
                     }
                 }
             }
@@ -504,7 +518,7 @@ fn cfgs() -> Vec<Cfg> {
 }
 
 fn cfg_json(c: &Cfg) -> Value {
-    json!({"naming": format!("{:?}", c.naming), "gkind": format!("{:?}", c.gkind), "def_level": c.def_level, "ext": c.ext.map(|e| format!("{:?}", e)), "user_help": c.user_help, "ignored_error": c.ignored_error, "precedence": c.precedence})
+    json!({"naming": format!("{:?}", c.naming), "gkind": format!("{:?}", c.gkind), "def_level": c.def_level, "ext": c.ext.map(|e| format!("{:?}", e)), "user_help": c.user_help, "ignored_error": c.ignored_error, "precedence": c.precedence, "redeclared": c.redeclared})
 }
 fn cfg_from(v: &Value) -> Option<Cfg> {
     Some(Cfg {
@@ -519,6 +533,7 @@ fn cfg_from(v: &Value) -> Option<Cfg> {
         user_help: v["user_help"].as_bool().unwrap_or(false),
         ignored_error: v["ignored_error"].as_bool().unwrap_or(false),
         precedence: v["precedence"].as_bool().unwrap_or(false),
+        redeclared: v["redeclared"].as_bool().unwrap_or(false),
     })
 }
 
